@@ -6,6 +6,7 @@ import (
 	"math"
 	"math/big"
 	"sync"
+	"sync/atomic"
 )
 
 const eps = 1.0 / (1 << 52)
@@ -251,4 +252,69 @@ func gcd(a, b int) int {
 		a, b = b, a%b
 	}
 	return a
+}
+
+// concurrentFirst: like concurrentSame, but the CONCURRENT evaluation comes first, in a process that has not yet called the
+// library - tables filled on first use, lazily grown memos and one-time initialisation are then built under concurrency, by
+// callers with differing parameters.  Afterwards every call is evaluated alone and must give the same bits.  Call it before
+// anything else in a replay.
+func concurrentFirst(sum *Summary, what string, names []string, calls []func() float64) {
+	n := len(calls)
+	if n == 0 {
+		return
+	}
+	const G = 12
+	got := make([][]uint64, G)
+	panicked := make([]bool, G)
+	for g := range got {
+		got[g] = make([]uint64, n)
+	}
+	// rounds of G calls released together: in round r goroutine g makes call r*G+g.  The list is ordered so that neighbouring
+	// calls have different, growing parameters: whatever is grown on demand is grown by several callers at the same moment.
+	for r := 0; r*G < n; r++ {
+		var wg sync.WaitGroup
+		var ready int32
+		for g := 0; g < G && r*G+g < n; g++ {
+			wg.Add(1)
+			go func(g, k int) {
+				defer wg.Done()
+				defer func() {
+					if rec := recover(); rec != nil {
+						panicked[g] = true
+					}
+				}()
+				atomic.AddInt32(&ready, 1)
+				want := int32(G)
+				if n-r*G < G {
+					want = int32(n - r*G)
+				}
+				for spin := 0; atomic.LoadInt32(&ready) < want && spin < 50_000_000; spin++ { // start together
+				}
+				got[g][k] = math.Float64bits(calls[k]())
+			}(g, r*G+g)
+		}
+		wg.Wait()
+	}
+	c := json.RawMessage(`{"concurrent-first":"` + what + `"}`)
+	sum.Checks += n
+	reported := 0
+	for i, f := range calls {
+		seq := math.Float64bits(f())
+		for g := i % G; g == i%G && reported < 5; g++ {
+			if panicked[g] {
+				continue
+			}
+			if got[g][i] != seq {
+				sum.viol("concurrent-differs", c, "%s: %s returned %v when it was among the first calls of the process, made concurrently with calls for other parameters; %v when called alone afterwards", what, names[i], math.Float64frombits(got[g][i]), math.Float64frombits(seq))
+				reported++
+				break
+			}
+		}
+	}
+	for g := range panicked {
+		if panicked[g] {
+			sum.viol("concurrent-panic", c, "%s: a call panicked when it was among the first calls of the process, made concurrently", what)
+			break
+		}
+	}
 }
